@@ -9,6 +9,10 @@ import Proofs.C01ReadAt
 import Proofs.C01Buffer
 import Proofs.C01IOReader
 import Proofs.C01History
+import Proofs.C01Bytes
+import Proofs.C01Open
+import Proofs.C01ReadFull
+import Proofs.C01Limit
 /-!
   C01 — bit-exact reads through any composition of bit and file readers: property theorems about the
   model (FqModel/Bitio.lean: Read64/Write64/copyBufBits/Buffer; FqModel/C01Readers.lean: the readers;
@@ -78,7 +82,8 @@ example : write64 0x1abc 13 [0xff, 0x00, 0xff] 5 = ok [0xfe, 0xaf, 0x3f] ∧ 0x1
 /-! ### ReadBitsAt / ReadBits of byte buffers, sections, multi readers, zero readers, limit readers -/
 
 /-- C01 core.  For every well-formed composition (any nesting depth ≤ d) of NewIOBitReadSeeker over a
-    bytes.Reader or file, SectionReader (inside its source), MultiReader and ZeroReadAtSeeker — in particular
+    bytes.Reader or file — directly or through any stack of aheadreadseeker / progressreadseeker / ctxreadseeker
+    wrappers (`ByteWF`) —, SectionReader (inside its source), MultiReader and ZeroReadAtSeeker — in particular
     NewBitReader(buf, nBits) and everything bitiox.Range / Binary.toReader build — every ReadBitsAt(p, n, off)
     with off ≥ 0 succeeds (no Go panic, no hang) and satisfies `SoundAt (den r) off n`:
       * the k ≤ n bits returned are exactly bits [off, off+k) of the denoted bit string, MSB first,
@@ -120,7 +125,7 @@ example : newMulti [newBitReader [0xab, 0xcd] (some 13), .zero 0 3, newBitReader
 /-- … a section of it is well formed (hypothesis of `readBitsAt_sound` / `readBits_sound`) … -/
 example : WFd 8 (newSect exMulti 10 12) ∧ isReader (newSect exMulti 10 12) = true := by
   simp [WFd, exMulti, newSect, newBitReader, newIOBits, den, denList, denBy, cumEnds, slice, bytesToBits,
-    byteToBits, toBitsBE, isReader]
+    byteToBits, toBitsBE, isReader, ByteWF]
 
 /-- … and an unaligned read across both internal boundaries returns 3 bits (MultiReader reads from one
     sub-reader per call) without error, a read at the end reports EOF -/
@@ -132,6 +137,199 @@ example :
       | .ok (_, res) => (res.n, res.bits, res.err) | _ => (0, [], none)) = (5, [false, false, true, false, false], none) ∧
     (match step 8 (newSect exMulti 10 12) (.readAt 1 12) with
       | .ok (_, res) => (res.n, res.bits, res.err) | _ => (0, [], none)) = (0, [], some .eof) := by
+  decide
+
+/-! ### ReadFull / ReadAtFull (bitio.go:196-238) -/
+
+/-- `readFull_exact` (ReadAtFull): when the n bits at off exist, bitio.ReadAtFull over any well-formed reader
+    returns (n, nil) and exactly those bits — whatever short reads (MultiReader boundaries) and unaligned heads
+    the loop has to stitch together through its one-byte buffer and Write64 -/
+theorem readAtFull_exact (d : Nat) (r : Rd) (h : WFd d r) (n off : Nat) (hin : off + n ≤ (den r).length) :
+    ∃ r' res, readAtFull d r n (off : Int) = ok (r', res) ∧ res.n = n ∧ res.bits = slice (den r) off n ∧
+      res.err = none ∧ WFd d r' ∧ den r' = den r := by
+  obtain ⟨r', res, h1, h2⟩ := readAtFull_spec d r h n off (by omega)
+  rcases h2 with ⟨_, a, b, c, _, e1, e2⟩ | ⟨hlt, _⟩
+  · exact ⟨r', res, h1, a, b, c, e1, e2⟩
+  · omega
+
+/-- `readFull_eof` (ReadAtFull): when fewer than n bits are left after off (off inside the data), it returns the
+    bits that are left, io.EOF, and — bitio's convention — the number of bits NOT read -/
+theorem readAtFull_eof (d : Nat) (r : Rd) (h : WFd d r) (n off : Nat) (hoff : off ≤ (den r).length)
+    (hout : (den r).length < off + n) :
+    ∃ r' res, readAtFull d r n (off : Int) = ok (r', res) ∧ res.n = (n : Int) - (((den r).length - off : Nat) : Int) ∧
+      res.bits = slice (den r) off ((den r).length - off) ∧ res.err = some .eof ∧ WFd d r' ∧ den r' = den r := by
+  obtain ⟨r', res, h1, h2⟩ := readAtFull_spec d r h n off hoff
+  rcases h2 with ⟨hle, _⟩ | ⟨_, a, b, c, _, e1, e2⟩
+  · omega
+  · exact ⟨r', res, h1, a, b, c, e1, e2⟩
+
+/-- `readFull_exact` / `readFull_eof` (ReadFull, from the reader's own position, which advances by the bits read) -/
+theorem readFull_exact (d : Nat) (r : Rd) (h : WFd d r) (hrd : isReader r = true) (n : Nat)
+    (hin : posOf r + n ≤ (den r).length) :
+    ∃ r' res, readFull d r n = ok (r', res) ∧ res.n = n ∧ res.bits = slice (den r) (posOf r) n ∧ res.err = none ∧
+      WFAt d (den r) r' (posOf r + n) := by
+  obtain ⟨r', res, h1, h2⟩ := readFull_spec d r h hrd n (by omega)
+  rcases h2 with ⟨_, a, b, c, _, e⟩ | ⟨hlt, _⟩
+  · exact ⟨r', res, h1, a, b, c, e⟩
+  · omega
+
+theorem readFull_eof (d : Nat) (r : Rd) (h : WFd d r) (hrd : isReader r = true) (n : Nat)
+    (hpos : posOf r ≤ (den r).length) (hout : (den r).length < posOf r + n) :
+    ∃ r' res, readFull d r n = ok (r', res) ∧ res.n = (n : Int) - (((den r).length - posOf r : Nat) : Int) ∧
+      res.bits = slice (den r) (posOf r) ((den r).length - posOf r) ∧ res.err = some .eof ∧
+      WFAt d (den r) r' (den r).length := by
+  obtain ⟨r', res, h1, h2⟩ := readFull_spec d r h hrd n hpos
+  rcases h2 with ⟨hle, _⟩ | ⟨_, a, b, c, _, e⟩
+  · omega
+  · refine ⟨r', res, h1, a, b, c, ?_⟩
+    rwa [show posOf r + ((den r).length - posOf r) = (den r).length by omega] at e
+
+/-- non-vacuity: ReadAtFull of 11 bits across both internal boundaries of `exMulti` (three calls, two of them
+    through the one-byte buffer), and 11 bits of which only 5 are left -/
+example :
+    (match readAtFull 8 (newSect exMulti 10 12) 11 0 with
+      | .ok (_, res) => (res.n, res.bits, res.err) | _ => (0, [], none))
+      = (11, [false, false, true, false, false, false, false, false, false, true, false], none) ∧
+    (match readAtFull 8 (newSect exMulti 10 12) 11 7 with
+      | .ok (_, res) => (res.n, res.bits, res.err) | _ => (0, [], none))
+      = (6, [false, false, true, false, false], some .eof) := by
+  decide
+
+/-! ### the byte-side wrappers and the reader stack of interp._open -/
+
+/-- every well-formed stack of ctxreadseeker (live context) / progressreadseeker / aheadreadseeker (minRead > 0,
+    cache invariant) over a bytes.Reader or file behaves like a bytes.Reader over the same data: Read answers
+    1..n bytes of the data at the position or EOF at the end, Seek answers what bytes.Reader answers -/
+theorem byte_wrappers_transparent (d : Nat) (data : List UInt8) : ByteOK (step d) data (ByteAt d data) :=
+  byteOK_wf d data
+
+/-- the model's open stack is built with the constants REGENERATED from pkg/interp/binary.go, in the order and
+    with the data flow of the constructor calls found there (rs → ctxreadseeker → progressreadseeker →
+    aheadreadseeker → NewIOBitReadSeeker) -/
+theorem open_stack_consts (data : List UInt8) :
+    openStack data = newIOBits (.ahead (newProgress (.ctx (.raw data 0 true)) Gen.C01Consts.progressPrecision data.length)
+      Gen.C01Consts.cacheReadAheadSize 0 [] 0) ∧
+    Gen.C01Consts.openCalls.map (fun c => c.2.1) =
+      ["ctxreadseeker.New", "progressreadseeker.New", "aheadreadseeker.New", "bitio.NewIOBitReadSeeker"] ∧
+    (match Gen.C01Consts.openCalls with
+      | [(v1, _, a1), (v2, _, a2), (v3, _, a3), (_, _, a4)] =>
+        a1.contains "rs" && a2.contains v1 && a2.contains "progressPrecision" && a3.contains v2 &&
+          a3.contains "cacheReadAheadSize" && a4.contains v3
+      | _ => false) = true ∧
+    0 < Gen.C01Consts.progressPrecision ∧ 0 < Gen.C01Consts.cacheReadAheadSize := by
+  refine ⟨rfl, by decide, by decide, by decide, by decide⟩
+
+/-- `open_stack_refines`: for EVERY file content and EVERY history of ReadBitsAt / ReadBits / SeekBits / clone the
+    reader interp._open hands out (IOBitReadSeeker over aheadreadseeker(512 KiB) over progressreadseeker over
+    ctxreadseeker over the file) makes exactly the observations of the specification machine `runBitsSpec` over
+    the plain byte string: cache, progress partitions and context hand-off are invisible -/
+theorem open_stack_refines (data : List UInt8) (ops : List HOp) :
+    runH depthFuel (openStack data) ops = runBitsSpec data ops :=
+  open_stack_refines' data ops
+
+/-- … and so does the plain NewIOBitReadSeeker(bytes.NewReader(data)) -/
+theorem plain_bitreader_refines (data : List UInt8) (ops : List HOp) :
+    runH depthFuel (newIOBits (.raw data 0 false)) ops = runBitsSpec data ops :=
+  plain_refines' data ops
+
+/-- the open stack is a well-formed reader denoting the bits of the file, so `readBitsAt_sound`, `readBits_sound`,
+    `readAtFull_exact` … apply to it and, through `history_refines`, to every section (bitiox.Range) of it -/
+theorem open_stack_wf (data : List UInt8) :
+    WFd depthFuel (openStack data) ∧ den (openStack data) = bytesToBits data :=
+  openStack_wf' data 27
+
+theorem open_stack_range_history (data : List UInt8) (off n : Nat) (h : off + n ≤ 8 * data.length) (ops : List HOp) :
+    HistOK (slice (bytesToBits data) off n) 0 (runH (depthFuel + 1) (newSect (openStack data) off n) ops) := by
+  have hw := openStack_wf' data 27
+  have hwf : WFd (depthFuel + 1) (newSect (openStack data) off n) := by
+    simp only [newSect, WFd]
+    exact ⟨hw.1, Nat.le_refl _, by omega, by rw [hw.2, bytesToBits_length]; omega⟩
+  have := history_refines' (depthFuel + 1) _ ops (newSect (openStack data) off n) ⟨hwf, rfl, rfl⟩
+  simpa [newSect, den_sect, hw.2, posOf] using this
+
+/-- non-vacuity: a history on the open stack over a 5-byte file -/
+example :
+    (runH depthFuel (openStack [0x12, 0x34, 0x56, 0x78, 0x9a]) [.read 3, .seek 2 .current, .read 8, .seek (-13) .end_,
+        .readAt 20 27]).map (fun x => match x.2 with | .ok res => (res.n, res.bits.length, res.err) | _ => (-1, 0, none))
+      = [(3, 3, none), (5, 0, none), (8, 8, none), (27, 0, none), (13, 13, some .eof)] := by
+  decide
+
+/-! ### LimitReader histories -/
+
+/-- every history of ReadBits / CloneReader on NewLimitReader(r, m) over a well-formed section or multi reader:
+    each read returns the bits at the inner reader's cursor, never more than the remaining budget, and the budget
+    is charged with the bits actually RETURNED (a short read at a MultiReader boundary must not cost the bits
+    requested); CloneReader restarts at 0 with the remaining — not the original — budget -/
+theorem limit_history (d : Nat) (r : Rd) (m : Nat) (h : WFd d r) (ht : topSM r = true) (ops : List LOp) :
+    LimitOK (den r) (posOf r) m (runL (d + 1) (.limit r m) ops) :=
+  limit_history' d (den r) ops r m ⟨h, rfl, ht⟩
+
+/-- never more than the budget in total (histories without CloneReader) -/
+theorem limit_budget (d : Nat) (r : Rd) (m : Nat) (h : WFd d r) (ht : topSM r = true) (ops : List LOp)
+    (hnc : ∀ op ∈ ops, op ≠ .clone) : bitsReturned (runL (d + 1) (.limit r m) ops) ≤ m := by
+  refine limitOK_budget (den r) _ _ _ (limit_history d r m h ht ops) ?_
+  intro x hx
+  have : ∀ (l : List LOp) (s : Rd), (∀ op ∈ l, op ≠ .clone) → ∀ y ∈ runL (d + 1) s l, y.1 ≠ .clone := by
+    intro l
+    induction l with
+    | nil => intro s _ y hy; simp [runL] at hy
+    | cons o os ih =>
+      intro s hl y hy
+      simp only [runL] at hy
+      cases hst : step (d + 1) s o.toOp with
+      | ok a =>
+        rw [hst] at hy
+        rcases List.mem_cons.mp hy with rfl | hy
+        · exact hl o (by simp)
+        · exact ih a.1 (fun op hop => hl op (by simp [hop])) y hy
+      | fault w => rw [hst] at hy; simp at hy; subst hy; exact hl o (by simp)
+      | hang => rw [hst] at hy; simp at hy; subst hy; exact hl o (by simp)
+      | unsupported w => rw [hst] at hy; simp at hy; subst hy; exact hl o (by simp)
+  exact this ops _ hnc x hx
+
+/-- the budget under short reads: a 20-bit limit over NewMultiReader(13 bits, 3 zero bits, 8 bits): reads of 11
+    bits return 11, 2, 3, 4 bits (short at both boundaries) and then EOF — 20 bits in total, not fewer -/
+example :
+    (runL 9 (.limit exMulti 20) [.read 11, .read 11, .read 11, .read 11, .read 11]).map
+      (fun x => match x.2 with | .ok res => (res.n, res.err) | _ => (-1, none))
+      = [(11, none), (2, none), (3, none), (4, none), (0, some .eof)] := by
+  decide
+
+/-- the CloneReader quirk (limitreader.go:35 `&LimitReader{r: rc, n: r.n}`): after 8 of 12 bits the clone delivers
+    only the remaining 4 bits — from position 0 again -/
+theorem limit_clone_budget_witness :
+    (runL 9 (.limit (newBitReader [0xab, 0xcd] none) 12) [.read 8, .clone, .read 12, .read 1]).map
+      (fun x => match x.2 with | .ok res => (res.n, res.bits, res.err) | _ => (-1, [], none))
+      = [(8, [true, false, true, false, true, false, true, true], none), (0, [], none),
+         (4, [true, false, true, false], none), (0, [], some .eof)] := by
+  decide
+
+/-! ### bitio.Buffer and the writer → reader round trip -/
+
+/-- bitio.Buffer is a FIFO of bits for EVERY interleaving of WriteBits(p, n) (n ≤ 8·len(p)) and ReadBits(k): each
+    read returns the first min(k, len) unread bits (EOF, or nil for k = 0, when empty); in particular no
+    copyBufBits / Read64 / Write64 index is ever out of range (`no_oob` for Buffer: all outcomes are `ok`) -/
+theorem buffer_fifo (ops : List BufOp) (h : ∀ p n, BufOp.write p n ∈ ops → n ≤ 8 * p.length) :
+    runBuf {} ops = bufSpec [] ops := by
+  have := buffer_fifo' ops {} ⟨by simp, by simp⟩ h
+  simpa [Buffer.content, slice_zero_len] using this
+
+/-- round trip: the bytes an IOBitWriter wrote (see `ioBitWriter_flush`: `bitsToBytesPadR X`, never a fault for
+    any chunking) read back through NewBitReader(bytes, len X) are the bits X -/
+theorem writer_reader_roundtrip (X : Bits) :
+    WFd 3 (newBitReader (bitsToBytesPadR X) (some X.length)) ∧
+    den (newBitReader (bitsToBytesPadR X) (some X.length)) = X := by
+  have hl : X.length ≤ 8 * (bitsToBytesPadR X).length := by
+    rw [← packR_eq_bitsToBytesPadR, packR_length]; exact (bitsByteCount_bounds _).1
+  refine ⟨(newBitReader_wf _ _ (by intro nb h; injection h with h; subst h; exact hl) 0).1, ?_⟩
+  rw [den_newBitReader, ← packR_eq_bitsToBytesPadR, bytesToBits_packR]
+  simp
+
+/-- non-vacuity of `buffer_fifo`: interleaved writes and reads -/
+example :
+    runBuf {} [.write [0xab, 0xc0] 11, .read 3, .write [0xff] 2, .read 20, .read 1, .read 0]
+      = [ok ([], none), ok ([true, false, true], none), ok ([], none),
+         ok ([false, true, false, true, true, true, true, false, true, true], none), ok ([], some .eof), ok ([], none)] := by
   decide
 
 /-! ### histories -/
@@ -254,7 +452,7 @@ theorem ahead_read_prefix (data : List UInt8) (isFile : Bool) (m : Nat) (hm : 0 
 
 /-- the invariant holds initially -/
 theorem ahead_init_inv (data : List UInt8) (isFile : Bool) (m : Nat) : AheadAt data isFile m (initAhead data isFile m) 0 :=
-  ⟨0, [], 0, rfl, ⟨fun h => absurd rfl h, fun _ => rfl⟩⟩
+  ⟨.raw data 0 isFile, 0, [], 0, rfl, rfl, ⟨fun h => absurd rfl h, fun _ => rfl⟩⟩
 
 /-- non-vacuity: the history of the fixed finding `ahead-seekend-cached` (read 4; seek(-28,end) on 32 bytes
     with minRead 8; read 4; read 4) delivers bytes 0-3, 4-7, 8-11 -/
